@@ -1,13 +1,457 @@
-//! C17 — not yet implemented
-use crate::core::{Ctx, Outcome};
-use serde_json::Value;
+//! C17 — Running dataset statistics equal the statistics of the whole dataset.
+//!
+//! E-SEQ: every sequence of length <= d over a small alphabet of decimal values (two alphabets: "wide
+//! magnitudes" and "close values") is fed value by value to the REAL `DataSetSummary::update`; after
+//! EVERY update the summary is compared with batch formulas evaluated on the *sorted multiset* of the
+//! values seen so far in exact integer arithmetic (own tiny big-integer, no rounding at all). Since the
+//! reference is a function of the multiset only, agreement for every order is also order-independence.
+//!
+//! Oracle rules (sentence of the statement -> rule):
+//!  * "count, sum, mean, population variance, standard deviation and range equal the values computed
+//!    from the whole sequence at once, within decimal rounding":
+//!      count  == n exactly;  range.high/low == max/min exactly (they are elements of the dataset);
+//!      |sum - S| , |mean - S/n|            <= K   * 1e-24
+//!      |variance - (n*SumSq - S^2)/n^2|    <= K^2 * 1e-24
+//!      std_dev >= 0 and |std_dev^2 - variance_exact| <= 2*K^2*1e-24 + variance_exact*1e-24
+//!    where K = max(1, ceil(max |x|)) is the scale of the data: `Decimal` carries 28 significant digits,
+//!    so an intermediate of magnitude K (K^2 for squared quantities) is rounded at ~K*1e-28; the bound
+//!    leaves >= 3 decimal orders of slack over the worst rounding (the measured worst error/tolerance
+//!    ratio is written to the evidence) and is >= 5 orders below the smallest effect of any alphabet
+//!    value, so a dropped or double-counted value can never hide inside it.
+//!  * "the order-free quantities do not depend on arrival order": implied by the above for all orders
+//!    of every multiset (all sequences are enumerated).
+//!  * "Variance is never negative": variance >= 0 exactly.
+//!  * "the mean always lies within the range": low <= mean <= high exactly (on the reported values).
+//!  A panic inside `update` leaves no summary at all and is reported as a violation of the first rule.
 
-pub fn run(_ctx: &Ctx) -> Outcome {
-    eprintln!("MACHINERY: C17 not implemented");
-    std::process::exit(2)
+use crate::core::{Ctx, Outcome, hash_of};
+use crate::explore::seq::{self, SeqModel, Viol};
+use barter::statistic::summary::dataset::DataSetSummary;
+use rust_decimal::{Decimal, prelude::ToPrimitive};
+use serde_json::{Value, json};
+use std::{
+    cmp::Ordering,
+    str::FromStr,
+    sync::atomic::{AtomicU64, Ordering as AO},
+};
+
+// ---------------------------------------------------------------------------------------------
+// Minimal signed big integer (little-endian u32 limbs): add, sub, mul, cmp. Enough for exact
+// rational comparisons by cross-multiplication (no division needed).
+// ---------------------------------------------------------------------------------------------
+#[derive(Clone, Debug, PartialEq, Eq)]
+pub struct Big {
+    neg: bool,
+    mag: Vec<u32>,
 }
 
-pub fn replay(_ctx: &Ctx, _case: &Value) {
-    eprintln!("MACHINERY: C17 not implemented");
-    std::process::exit(2)
+impl Big {
+    pub fn zero() -> Self {
+        Big { neg: false, mag: vec![] }
+    }
+    pub fn from_i128(v: i128) -> Self {
+        let neg = v < 0;
+        let mut u = v.unsigned_abs();
+        let mut mag = Vec::new();
+        while u > 0 {
+            mag.push(u as u32);
+            u >>= 32;
+        }
+        Big { neg, mag }
+    }
+    pub fn pow10(n: u32) -> Self {
+        let ten = Big::from_i128(10);
+        let mut r = Big::from_i128(1);
+        for _ in 0..n {
+            r = r.mul(&ten);
+        }
+        r
+    }
+    pub fn is_zero(&self) -> bool {
+        self.mag.is_empty()
+    }
+    pub fn is_neg(&self) -> bool {
+        self.neg && !self.is_zero()
+    }
+    fn trim(mut self) -> Self {
+        while self.mag.last() == Some(&0) {
+            self.mag.pop();
+        }
+        if self.mag.is_empty() {
+            self.neg = false;
+        }
+        self
+    }
+    fn cmp_mag(a: &[u32], b: &[u32]) -> Ordering {
+        if a.len() != b.len() {
+            return a.len().cmp(&b.len());
+        }
+        for i in (0..a.len()).rev() {
+            if a[i] != b[i] {
+                return a[i].cmp(&b[i]);
+            }
+        }
+        Ordering::Equal
+    }
+    fn add_mag(a: &[u32], b: &[u32]) -> Vec<u32> {
+        let mut r = Vec::with_capacity(a.len().max(b.len()) + 1);
+        let mut carry = 0u64;
+        for i in 0..a.len().max(b.len()) {
+            let s = carry + *a.get(i).unwrap_or(&0) as u64 + *b.get(i).unwrap_or(&0) as u64;
+            r.push(s as u32);
+            carry = s >> 32;
+        }
+        if carry > 0 {
+            r.push(carry as u32);
+        }
+        r
+    }
+    /// a - b with |a| >= |b|
+    fn sub_mag(a: &[u32], b: &[u32]) -> Vec<u32> {
+        let mut r = Vec::with_capacity(a.len());
+        let mut borrow = 0i64;
+        for i in 0..a.len() {
+            let mut d = a[i] as i64 - borrow - *b.get(i).unwrap_or(&0) as i64;
+            if d < 0 {
+                d += 1 << 32;
+                borrow = 1;
+            } else {
+                borrow = 0;
+            }
+            r.push(d as u32);
+        }
+        r
+    }
+    pub fn neg(&self) -> Self {
+        Big { neg: !self.neg, mag: self.mag.clone() }.trim()
+    }
+    pub fn abs(&self) -> Self {
+        Big { neg: false, mag: self.mag.clone() }
+    }
+    pub fn add(&self, o: &Big) -> Big {
+        if self.neg == o.neg {
+            return Big { neg: self.neg, mag: Self::add_mag(&self.mag, &o.mag) }.trim();
+        }
+        match Self::cmp_mag(&self.mag, &o.mag) {
+            Ordering::Equal => Big::zero(),
+            Ordering::Greater => Big { neg: self.neg, mag: Self::sub_mag(&self.mag, &o.mag) }.trim(),
+            Ordering::Less => Big { neg: o.neg, mag: Self::sub_mag(&o.mag, &self.mag) }.trim(),
+        }
+    }
+    pub fn sub(&self, o: &Big) -> Big {
+        self.add(&o.neg())
+    }
+    pub fn mul(&self, o: &Big) -> Big {
+        if self.is_zero() || o.is_zero() {
+            return Big::zero();
+        }
+        let mut r = vec![0u32; self.mag.len() + o.mag.len()];
+        for (i, &a) in self.mag.iter().enumerate() {
+            let mut carry = 0u64;
+            for (j, &b) in o.mag.iter().enumerate() {
+                let t = r[i + j] as u64 + a as u64 * b as u64 + carry;
+                r[i + j] = t as u32;
+                carry = t >> 32;
+            }
+            let mut k = i + o.mag.len();
+            while carry > 0 {
+                let t = r[k] as u64 + carry;
+                r[k] = t as u32;
+                carry = t >> 32;
+                k += 1;
+            }
+        }
+        Big { neg: self.neg != o.neg, mag: r }.trim()
+    }
+    pub fn cmp(&self, o: &Big) -> Ordering {
+        match (self.is_neg(), o.is_neg()) {
+            (false, true) => Ordering::Greater,
+            (true, false) => Ordering::Less,
+            (false, false) => Self::cmp_mag(&self.mag, &o.mag),
+            (true, true) => Self::cmp_mag(&o.mag, &self.mag),
+        }
+    }
+    /// approximate value, for reporting only (never used for a verdict)
+    pub fn to_f64(&self) -> f64 {
+        let mut v = 0f64;
+        for &l in self.mag.iter().rev() {
+            v = v * 4294967296.0 + l as f64;
+        }
+        if self.neg { -v } else { v }
+    }
+}
+
+/// Exact rational `n/d`, d > 0.
+#[derive(Clone, Debug)]
+pub struct Rat {
+    pub n: Big,
+    pub d: Big,
+}
+
+impl Rat {
+    pub fn new(n: Big, d: Big) -> Self {
+        assert!(!d.is_zero() && !d.is_neg(), "Rat denominator must be positive");
+        Rat { n, d }
+    }
+    pub fn from_decimal(x: Decimal) -> Self {
+        Rat { n: Big::from_i128(x.mantissa()), d: Big::pow10(x.scale()) }
+    }
+    pub fn to_f64(&self) -> f64 {
+        self.n.to_f64() / self.d.to_f64()
+    }
+    /// (|self - o| <= tol, |self - o| / tol as f64 for reporting)
+    pub fn close(&self, o: &Rat, tol: &Rat) -> (bool, f64) {
+        // |a/b - c/d| <= t/u  <=>  |a*d - c*b| * u <= t * b * d
+        let diff = self.n.mul(&o.d).sub(&o.n.mul(&self.d)).abs();
+        let lhs = diff.mul(&tol.d);
+        let rhs = tol.n.mul(&self.d).mul(&o.d);
+        let ok = lhs.cmp(&rhs) != Ordering::Greater;
+        let ratio = if rhs.is_zero() {
+            if lhs.is_zero() { 0.0 } else { f64::INFINITY }
+        } else {
+            lhs.to_f64() / rhs.to_f64()
+        };
+        (ok, ratio)
+    }
+}
+
+// ---------------------------------------------------------------------------------------------
+
+/// Alphabet A: the design's wide-magnitude values (sign changes, repeats, 18 orders of magnitude apart).
+const ALPHA_WIDE: [&str; 9] =
+    ["0", "1", "-1", "0.1", "0.3333333333", "2.5", "0.000000001", "1000000000", "-1000000000"];
+/// Alphabet B: values that differ only far behind the leading digits (cancellation-prone for a naive
+/// sum-of-squares formula), plus a sign flip and an outlier.
+const ALPHA_CLOSE: [&str; 6] =
+    ["100", "100.000000001", "99.999999999", "100.5", "-100", "0.000000001"];
+
+/// real object + poison flag (set when `update` panicked; the branch is then cut)
+#[derive(Clone)]
+pub struct St {
+    sum: DataSetSummary,
+    poisoned: bool,
+}
+
+pub struct M {
+    alphabet: Vec<String>,
+    /// worst |error|/tolerance seen for sum, mean, variance, std_dev^2 (f64 bits; values are >= 0 so the
+    /// bit patterns order like the numbers)
+    worst: [AtomicU64; 4],
+}
+
+impl M {
+    pub fn new(alpha: &[&str]) -> Self {
+        M {
+            alphabet: alpha.iter().map(|s| s.to_string()).collect(),
+            worst: [AtomicU64::new(0), AtomicU64::new(0), AtomicU64::new(0), AtomicU64::new(0)],
+        }
+    }
+    fn note(&self, k: usize, ratio: f64) {
+        if ratio.is_finite() {
+            self.worst[k].fetch_max(ratio.to_bits(), AO::Relaxed);
+        }
+    }
+    fn worst_json(&self) -> Value {
+        let g = |k: usize| f64::from_bits(self.worst[k].load(AO::Relaxed));
+        json!({"sum": g(0), "mean": g(1), "variance": g(2), "std_dev_squared": g(3)})
+    }
+}
+
+fn dec(s: &str) -> Decimal {
+    Decimal::from_str(s).expect("alphabet value parses")
+}
+
+/// The oracle: compare `got` with the batch statistics of `values` (any order).
+fn check(m: &M, got: &DataSetSummary, values: &[Decimal], out: &mut Vec<Viol>) {
+    let n = values.len() as i128;
+    // order-free by construction: work on the sorted multiset
+    let mut sorted: Vec<Decimal> = values.to_vec();
+    sorted.sort();
+    let scale = sorted.iter().map(|v| v.scale()).max().unwrap_or(0);
+    let den = Big::pow10(scale);
+    // integer numerators over the common power-of-ten denominator
+    let xs: Vec<Big> = sorted
+        .iter()
+        .map(|v| Big::from_i128(v.mantissa()).mul(&Big::pow10(scale - v.scale())))
+        .collect();
+    let mut s = Big::zero();
+    let mut sq = Big::zero();
+    for x in &xs {
+        s = s.add(x);
+        sq = sq.add(&x.mul(x));
+    }
+    let nb = Big::from_i128(n);
+    let sum_exact = Rat::new(s.clone(), den.clone());
+    let mean_exact = Rat::new(s.clone(), den.mul(&nb));
+    // population variance = (n*SumSq - S^2) / (n^2 * den^2)
+    let var_exact = Rat::new(nb.mul(&sq).sub(&s.mul(&s)), nb.mul(&nb).mul(&den).mul(&den));
+    let (min, max) = (sorted[0], sorted[sorted.len() - 1]);
+
+    // data scale K and tolerances
+    let maxabs = sorted.iter().map(|v| v.abs()).max().unwrap();
+    let k = Big::from_i128(maxabs.ceil().to_i128().expect("alphabet magnitudes fit i128").max(1));
+    let e24 = Big::pow10(24);
+    let tol_lin = Rat::new(k.clone(), e24.clone());
+    let tol_sq = Rat::new(k.mul(&k), e24.clone());
+
+    let ctxt = || format!("values={:?}", values.iter().map(|v| v.to_string()).collect::<Vec<_>>());
+
+    if got.count != Decimal::from(n as i64) {
+        out.push(("C17/batch-equality/count".into(), format!("count={} expected {n}; {}", got.count, ctxt())));
+    }
+    let (ok, r) = Rat::from_decimal(got.sum).close(&sum_exact, &tol_lin);
+    m.note(0, r);
+    if !ok {
+        out.push((
+            "C17/batch-equality/sum".into(),
+            format!("sum={} expected {:e} (error/tolerance={r:e}); {}", got.sum, sum_exact.to_f64(), ctxt()),
+        ));
+    }
+    let (ok, r) = Rat::from_decimal(got.mean).close(&mean_exact, &tol_lin);
+    m.note(1, r);
+    if !ok {
+        out.push((
+            "C17/batch-equality/mean".into(),
+            format!("mean={} expected {:e} (error/tolerance={r:e}); {}", got.mean, mean_exact.to_f64(), ctxt()),
+        ));
+    }
+    let var = got.dispersion.variance;
+    let (ok, r) = Rat::from_decimal(var).close(&var_exact, &tol_sq);
+    m.note(2, r);
+    if !ok {
+        out.push((
+            "C17/batch-equality/variance".into(),
+            format!(
+                "population variance={var} expected {:e} (error/tolerance={r:e}); {}",
+                var_exact.to_f64(),
+                ctxt()
+            ),
+        ));
+    }
+    // std_dev is the non-negative square root of the exact variance
+    let sd = got.dispersion.std_dev;
+    let sd_r = Rat::from_decimal(sd);
+    let sd2 = Rat::new(sd_r.n.mul(&sd_r.n), sd_r.d.mul(&sd_r.d));
+    // tol = 2*K^2/1e24 + var_exact/1e24  = (2*K^2*vd + vn) / (1e24*vd)
+    let tol_sd2 = Rat::new(
+        Big::from_i128(2).mul(&k).mul(&k).mul(&var_exact.d).add(&var_exact.n.abs()),
+        e24.mul(&var_exact.d),
+    );
+    let (ok, r) = sd2.close(&var_exact, &tol_sd2);
+    m.note(3, r);
+    if sd.is_sign_negative() && !sd.is_zero() {
+        out.push(("C17/batch-equality/std-dev-negative".into(), format!("std_dev={sd}; {}", ctxt())));
+    } else if !ok {
+        out.push((
+            "C17/batch-equality/std-dev".into(),
+            format!(
+                "std_dev={sd}, std_dev^2={:e} but exact variance {:e} (error/tolerance={r:e}); {}",
+                sd2.to_f64(),
+                var_exact.to_f64(),
+                ctxt()
+            ),
+        ));
+    }
+    let rg = &got.dispersion.range;
+    if rg.high != max {
+        out.push(("C17/batch-equality/range-high".into(), format!("range.high={} expected {max}; {}", rg.high, ctxt())));
+    }
+    if rg.low != min {
+        out.push(("C17/batch-equality/range-low".into(), format!("range.low={} expected {min}; {}", rg.low, ctxt())));
+    }
+    // "Variance is never negative"
+    if var < Decimal::ZERO {
+        out.push(("C17/variance-non-negative".into(), format!("variance={var}; {}", ctxt())));
+    }
+    // "the mean always lies within the range"
+    if got.mean < rg.low {
+        out.push(("C17/mean-within-range/below-low".into(), format!("mean={} < low={}; {}", got.mean, rg.low, ctxt())));
+    }
+    if got.mean > rg.high {
+        out.push(("C17/mean-within-range/above-high".into(), format!("mean={} > high={}; {}", got.mean, rg.high, ctxt())));
+    }
+}
+
+impl SeqModel for M {
+    type State = St;
+    type Sym = String;
+
+    fn init(&self) -> St {
+        St { sum: DataSetSummary::default(), poisoned: false }
+    }
+    fn alphabet(&self, s: &St, _hist: &[String]) -> Vec<String> {
+        if s.poisoned { vec![] } else { self.alphabet.clone() }
+    }
+    fn step(&self, s: &mut St, sym: &String, hist: &[String], out: &mut Vec<Viol>) {
+        let x = dec(sym);
+        // the REAL running update
+        let mut next = s.sum.clone();
+        let res = std::panic::catch_unwind(std::panic::AssertUnwindSafe(|| {
+            next.update(x);
+            next
+        }));
+        match res {
+            Ok(next) => s.sum = next,
+            Err(_) => {
+                s.poisoned = true;
+                out.push((
+                    "C17/batch-equality/update-panicked".into(),
+                    format!("DataSetSummary::update({x}) panicked after {hist:?}"),
+                ));
+                return;
+            }
+        }
+        let mut values: Vec<Decimal> = hist.iter().map(|h| dec(h)).collect();
+        values.push(x);
+        check(self, &s.sum, &values, out);
+    }
+    fn final_hash(&self, s: &St) -> u64 {
+        // canonical text of the real summary (Decimal's Hash is value based; text keeps it simple)
+        hash_of(&format!("{:?}", s.sum))
+    }
+}
+
+pub fn run(ctx: &Ctx) -> Outcome {
+    // the subject is silent unless it panics; keep panic output short
+    let (len_a, len_b) = ctx.tier.pick((5, 5), (7, 7));
+    let ma = M::new(&ALPHA_WIDE);
+    let sa = seq::run(ctx, &ma, "wide", len_a);
+    let mb = M::new(&ALPHA_CLOSE);
+    let sb = seq::run(ctx, &mb, "close", len_b);
+
+    let samples = vec![
+        json!({"alphabet": "wide", "seq": ["1000000000", "0.000000001", "-1000000000", "0.3333333333"]}),
+        json!({"alphabet": "close", "seq": ["100", "100.000000001", "99.999999999"]}),
+    ];
+    Outcome {
+        level: "exploration",
+        coverage: json!({
+            "evaluations": sa.steps + sb.steps,
+            "sequences": sa.sequences + sb.sequences,
+            "distinct_nontrivial": sa.distinct_final + sb.distinct_final,
+            "exhaustive": true,
+            "max_len_wide": len_a,
+            "max_len_close": len_b,
+            "alphabet_wide": ALPHA_WIDE,
+            "alphabet_close": ALPHA_CLOSE,
+            "per_alphabet": [
+                {"alphabet": "wide", "sequences": sa.sequences, "oracle_evaluations": sa.steps, "distinct_final_summaries": sa.distinct_final, "worst_error_over_tolerance": ma.worst_json()},
+                {"alphabet": "close", "sequences": sb.sequences, "oracle_evaluations": sb.steps, "distinct_final_summaries": sb.distinct_final, "worst_error_over_tolerance": mb.worst_json()},
+            ],
+            "rule": "every sequence (hence every order of every multiset) of length <= max_len over the alphabet fed to the real DataSetSummary::update; after every update count/range exact, sum/mean within K*1e-24, variance within K^2*1e-24 of exact big-integer batch formulas over the sorted multiset (K = data scale), std_dev^2 vs exact variance, variance >= 0, low <= mean <= high",
+            "samples": samples,
+        }),
+        assumptions: vec![
+            "values are taken from two fixed alphabets (magnitudes 1e-9 .. 1e9, <= 10 fractional digits); Decimal overflow behaviour is not part of the property".into(),
+            "'within decimal rounding' is read as an absolute error of at most K*1e-24 (K^2*1e-24 for squared quantities), K = max(1, ceil(max|x|))".into(),
+        ],
+    }
+}
+
+pub fn replay(ctx: &Ctx, case: &Value) {
+    let alpha: &[&str] = if case["label"].as_str() == Some("close") { &ALPHA_CLOSE } else { &ALPHA_WIDE };
+    let m = M::new(alpha);
+    for (sig, detail) in seq::replay(&m, case) {
+        ctx.violate(sig, detail, case.clone());
+    }
 }
